@@ -18,7 +18,8 @@ MODEL_FILES = ['MaltModel/Conv/Tmpl.lean', 'MaltModel/Conv/Functions.lean', 'Mal
                'MaltModel/Conv/CallTrees.lean', 'MaltModel/Conv/IfExp.lean', 'MaltModel/Conv/Logical.lean',
                'MaltModel/Conv/Variables.lean', 'MaltModel/Conv/NoNative.lean', 'MaltModel/Proofs/C04Traverse.lean',
                'MaltModel/Proofs/C04Passes.lean', 'MaltModel/Proofs/C04Calls.lean', 'MaltModel/Proofs/C04Sound.lean',
-               'MaltModel/Proofs/C01Exprs.lean', 'MaltModel/Sem/Wrappers.lean', 'MaltModel/Drv/C04.lean']
+               'MaltModel/Proofs/C01Exprs.lean', 'MaltModel/Proofs/C01ExprsStmt.lean', 'MaltModel/Proofs/C01ExprsTarget.lean',
+               'MaltModel/Sem/Wrappers.lean', 'MaltModel/Sem/WrappersStmt.lean', 'MaltModel/Sem/WrappersTarget.lean', 'MaltModel/Conv/Slices.lean', 'MaltModel/Drv/C04.lean']
 
 CLS_IFEXP = 'ifexp_nested_in_ifexp_branch'
 CLS_DIRECTIVE = 'call_in_loop_directive_argument'
